@@ -65,6 +65,9 @@ SPEC_NAMES = {
     "trace_all",
     "map_val",
     "names_nonempty",
+    "truthy",
+    "no_ctl_chars",
+    "get_truthy",
 }
 
 
@@ -397,3 +400,60 @@ class SpecMixin:
                         self.ctx.assume(pred(el))
                 out.append(z3.Implies(z3.Length(seq.e) > 0, z3.Length(Pair.fst(el)) >= 1))
         return mk_bool(z3.And(*out)) if out else True
+
+    def sp_truthy(self, e, fr):
+        v = self.ev(e.args[0], fr)
+        if type(v).__name__ == "Bottom":
+            return False
+        t = ops.truth(self.ctx, v)
+        return t if isinstance(t, bool) else mk_bool(t)
+
+    def sp_no_ctl_chars(self, e, fr):
+        """no_ctl_chars(headers): no name or value contains CR, LF or NUL.  Assumed: element fact;
+        proved: for an arbitrary element."""
+        from .sym import Pair, str_to_z3
+
+        v = self.ev(e.args[0], fr)
+        mode = getattr(self, "qmode", "prove")
+
+        def clean(t):
+            return z3.And(*[z3.Not(z3.Contains(t, z3.StringVal(c))) for c in ("\r", "\n", "\x00")])
+
+        out = []
+        seq = None
+        if isinstance(v, PList):
+            for it in v.items:
+                out.append(z3.And(clean(str_to_z3(it[0])), clean(str_to_z3(it[1]))))
+            seq = v.sym
+        elif isinstance(v, SymSeq):
+            seq = v
+        if seq is not None:
+            pred = lambda el: z3.And(clean(Pair.fst(el)), clean(Pair.snd(el)))
+            if mode == "assume":
+                self.ctx.seq_facts.append((seq.e, pred))
+            else:
+                j = self.ctx.fresh("_sk_j", z3.IntSort())
+                self.ctx.assume(z3.And(j >= 0, j < z3.Length(seq.e)))
+                el = seq.e[j]
+                for (sq, p2) in self.ctx.seq_facts:
+                    if z3.eq(sq, seq.e):
+                        self.ctx.assume(p2(el))
+                out.append(z3.Implies(z3.Length(seq.e) > 0, pred(el)))
+        return mk_bool(z3.And(*out)) if out else True
+
+    def sp_get_truthy(self, e, fr):
+        """get_truthy(msg, 'key'): key present and its value truthy (message.get(key, False))"""
+        m = self.ev(e.args[0], fr)
+        k = e.args[1].value
+        if type(m).__name__ == "Bottom":
+            return False
+        if isinstance(m, PDict):
+            return self.sp_truthy_value(m.items.get(k, False))
+        present, val = self.msg_key(m, k)
+        t = ops.truth(self.ctx, val)
+        tz = z3.BoolVal(t) if isinstance(t, bool) else t
+        return mk_bool(z3.And(present, tz))
+
+    def sp_truthy_value(self, v):
+        t = ops.truth(self.ctx, v)
+        return t if isinstance(t, bool) else mk_bool(t)
